@@ -235,17 +235,64 @@ theorem C18_gen_helper_Function_eq : helperShape_Function_eq = Frozen.helperShap
 theorem C18_gen_helper_Function_name : helperShape_Function_name = Frozen.helperShape_Function_name := rfl
 theorem C18_gen_helper_Function_ne : helperShape_Function_ne = Frozen.helperShape_Function_ne := rfl
 theorem C18_gen_helper_PLTerm_arg : helperShape_PLTerm_arg = Frozen.helperShape_PLTerm_arg := rfl
-theorem C18_gen_helper_PLTerm_breakpoint : helperShape_PLTerm_breakpoint = Frozen.helperShape_PLTerm_breakpoint := rfl
 theorem C18_gen_helper_PLTerm_num_breakpoints : helperShape_PLTerm_num_breakpoints = Frozen.helperShape_PLTerm_num_breakpoints := rfl
-theorem C18_gen_helper_PLTerm_slope : helperShape_PLTerm_slope = Frozen.helperShape_PLTerm_slope := rfl
 theorem C18_gen_helper_StringLiteral_value : helperShape_StringLiteral_value = Frozen.helperShape_StringLiteral_value := rfl
 
-theorem C18_gen_helper_BasicExprFactory_Copy : helperShape_BasicExprFactory_Copy = Frozen.helperShape_BasicExprFactory_Copy := rfl
-theorem C18_gen_helper_BasicExprFactory_MakeStringLiteral : helperShape_BasicExprFactory_MakeStringLiteral = Frozen.helperShape_BasicExprFactory_MakeStringLiteral := rfl
 /-- tripwire: the `std::hash<T>` the hasher reaches (hypothesis `hc` of `C18_hash_congr` is about `std::hash<double>`,
 the function `Prim.dbl` fields go through; `P.hDbl` in `hashStep`) -/
 theorem C18_gen_hashCombine_instances :
     hashCombineInstances = ["bool", "char", "char *const", "double", "int", "mp::Expr"] := rfl
+
+/-! ### memory layout (round 7): what the accessors read is what the factory wrote
+
+Generated from `PLTerm::slope/breakpoint`, `PLTermBuilder::AddSlope/AddBreakpoint`, `BeginPLTerm`, the `Impl`
+field declarations, `MakeStringLiteral` and `BasicExprFactory::Copy` (include/mp/expr.h).  `GenSem`'s `dAt`
+(`slope(i)` = i-th slope given to the builder) and `strOf` (`value()` = the bytes up to the first NUL of what was
+passed to `MakeStringLiteral`) rest on these facts. -/
+
+/-- `slope(k)` / `breakpoint(k)` read the cell the k-th `AddSlope` / `AddBreakpoint` wrote, for every k. -/
+theorem C18_gen_pl_read_is_write (k : Nat) :
+    plSlopeRead k = plSlopeWrite k ∧ plBreakpointRead k = plBreakpointWrite k := by
+  simp only [plSlopeRead, plSlopeWrite, plBreakpointRead, plBreakpointWrite, and_self]
+
+/-- No write clobbers another: slope cells and breakpoint cells are disjoint and each family is injective. -/
+theorem C18_gen_pl_writes_disjoint (i j : Nat) :
+    plSlopeWrite i ≠ plBreakpointWrite j ∧ (plSlopeWrite i = plSlopeWrite j → i = j) ∧
+      (plBreakpointWrite i = plBreakpointWrite j → i = j) := by
+  simp only [plSlopeWrite, plBreakpointWrite]
+  omega
+
+/-- Every cell read for a term with `n` breakpoints (slopes 0..n, breakpoints 0..n-1) lies inside the
+`sizeof(Impl)`-inline array plus the extra bytes `BeginPLTerm(n)` asked for (`sizeof(double)` = 8). -/
+theorem C18_gen_pl_in_bounds (n i : Nat) :
+    (i ≤ n → 8 * (plSlopeRead i + 1) ≤ 8 * plInlineDoubles + plExtraBytes n) ∧
+      (i < n → 8 * (plBreakpointRead i + 1) ≤ 8 * plInlineDoubles + plExtraBytes n) := by
+  simp only [plSlopeRead, plBreakpointRead, plInlineDoubles, plExtraBytes]
+  omega
+
+/-- … and the allocation is tight: the last slope uses the last cell (nothing is allocated that is never written). -/
+theorem C18_gen_pl_allocation_tight (n : Nat) :
+    8 * (plSlopeRead n + 1) = 8 * plInlineDoubles + plExtraBytes n := by
+  simp only [plSlopeRead, plInlineDoubles, plExtraBytes]
+  omega
+
+/-- Whatever the allocator left in the storage, after `Copy` the C string that `StringLiteral::value()` exposes
+(bytes up to the first NUL) is the C string of the source: the terminator is always written, also for the empty
+string (seeded change C18-6 breaks exactly this). -/
+theorem C18_gen_copy_terminated (src buf : List UInt8) (h : src.length < buf.length) :
+    cstr (copyRun factoryCopy src buf) = cstr src := by
+  simp only [factoryCopy, copyRun, copy_then_nul src buf h, cstr]
+  exact takeWhile_append_stop _ src 0 _ (by decide)
+
+/-- The storage `MakeStringLiteral` allocates has room for the bytes and the terminator (hypothesis of
+`C18_gen_copy_terminated`). -/
+theorem C18_gen_string_capacity (size : Nat) : size < stringInlineBytes + stringExtraBytes size := by
+  simp only [stringInlineBytes, stringExtraBytes]
+  omega
+
+/-- non-vacuity: an empty and a non-empty source into dirty storage -/
+example : cstr (copyRun factoryCopy [] [0x41, 0x42]) = [] ∧
+    cstr (copyRun factoryCopy [0x61, 0x62] [0x58, 0x58, 0x58, 0x58]) = [0x61, 0x62] := by decide
 
 /-- The recursion equations of the translated comparator have exactly one solution. -/
 theorem C18_gen_equal_unique (f : E C → E C → R)
